@@ -256,6 +256,15 @@ func runC09(c *Ctx) {
 					inc := filepath.Join(u2, ".git", "lfs", "incomplete")
 					os.MkdirAll(inc, 0755)
 					os.WriteFile(filepath.Join(inc, p.Oid+".part"), data[:len(data)/2], 0644)
+					// the server may not honour the Range request of the resumed download
+					switch t.Choose(3, "server-range-support") {
+					case 1:
+						w.Srv.F.RangeIgnore = 1000
+						c.Probe("resume-against-server-ignoring-range")
+					case 2:
+						w.Srv.F.Range416 = 1000
+						c.Probe("resume-against-server-answering-416")
+					}
 					break
 				}
 			}
